@@ -26,6 +26,9 @@ from surf_common import dy, tok, dec, frac
 
 LEVEL = "exploration"
 DRIVERS = S.DRIVERS
+META = {"text": "Every formula of the statement is an operator of spec/surf/Models.tla over exact rationals (parameters from Models.rst / Configuring_SimGrid.rst); TLC evaluates it on an exhaustive core grid (about 4 700 cases) and a seeded random layer and the real models must reproduce each expected duration to 1e-9 relative; exploration level because the domain (real-valued sizes, speeds, latencies) is sampled on a dyadic grid, not exhausted.",
+        "note": "Trusted: TLC's evaluation of Models.tla, the driver's platform construction through the public C++ API, binary64 rendering of the dyadic parameters (exact). Sizes equal to an SMPI factor boundary and WIFI links are outside the domain. The LV08/SMPI window-limited deviation is a recorded known finding, still compared with the exact alternative reading.",
+        "technique": "TLC as exact oracle over a generated case grid (G) + replay on the real models (surf_driver) + exact rational/double comparison"}
 MANT = [1, 3, 5, 7]
 POLICIES = ["SHARED", "FATPIPE", "SPLITDUPLEX"]
 MODELS = ["raw", "CM02", "LV08", "SMPI"]
